@@ -9,7 +9,7 @@
  * parent never dies (vlib.run_cases attributes every outcome to the right case).
  *
  * case lines (after the index):
- *   e <api> <ch> <rate> <q | max,nom,min> <ctl> <stage> <nblk> <cl>
+ *   e <api> <ch> <rate> <q | max,nom,min> <ctl> <stage> <nblk> <cl> [<headerout pattern over h,H,N,a; default h>]
  *       api: v=vorbis_encode_init_vbr  s=setup_vbr(+ctl)+setup_init  m=vorbis_encode_init  M=setup_managed(+ctl)+setup_init
  *       ctl: 0 none 1 COUPLING_SET(0) 2 LOWPASS_SET 3 RATEMANAGE2_SET(NULL) 4 RATEMANAGE2_SET(struct) 5 IBLOCK_SET 6 COUPLING_SET(1)
  *       stage: 0 setup  1 +ctl  2 +setup_init  3 +analysis_init  4 +headerout  5 +block_init  6 +nblk analysed blocks  7 +end of stream drained
@@ -64,7 +64,7 @@ static int run_enc(char *sv,char *res,size_t cap){
   char *t; char api; int ch,ctl,stage,nblk,cl; long rate; double q=0; long mx=-1,nom=-1,mn=-1;
   vorbis_info vi; vorbis_comment vc; vorbis_dsp_state vd; vorbis_block vb; ogg_packet op,h1,h2,h3;
   int rc_setup=0,rc_ctl=-999,rc_init=-999,rc_ai=-999,rc_ho=-999,rc_bi=-999; int reached=0; int have_vd=0,have_vb=0;
-  long blocks=0,packets=0,t0=0; long mid; char ls[128]; int r;
+  long blocks=0,packets=0,t0=0; long mid; char ls[128]; int r; const char *hopat="h"; vorbis_comment vc2; int nho=0,have_vc2=0;
   t=strtok_r(NULL," \n",&sv); api=t[0];
   t=strtok_r(NULL," \n",&sv); ch=atoi(t);
   t=strtok_r(NULL," \n",&sv); rate=atol(t);
@@ -73,7 +73,8 @@ static int run_enc(char *sv,char *res,size_t cap){
   t=strtok_r(NULL," \n",&sv); stage=atoi(t);
   t=strtok_r(NULL," \n",&sv); nblk=atoi(t);
   t=strtok_r(NULL," \n",&sv); cl=atoi(t);
-  memset(&vi,0,sizeof(vi)); memset(&vc,0,sizeof(vc)); memset(&vd,0,sizeof(vd)); memset(&vb,0,sizeof(vb));
+  t=strtok_r(NULL," \n",&sv); if(t&&t[0])hopat=t;     /* optional: headerout call pattern, default "h" */
+  memset(&vi,0,sizeof(vi)); memset(&vc,0,sizeof(vc)); memset(&vc2,0,sizeof(vc2)); memset(&vd,0,sizeof(vd)); memset(&vb,0,sizeof(vb));
   g_lcg=777u+(unsigned)ch*31u+(unsigned)rate;
 
   wa_on=1;                                   /* ---- accounting starts: baseline is 0 live bytes */
@@ -122,14 +123,44 @@ static int run_enc(char *sv,char *res,size_t cap){
   STAGE("headerout");
   vorbis_comment_add_tag(&vc,"TITLE","c13");
   vorbis_comment_add(&vc,"ARTIST=leak accounting");
-  rc_ho=vorbis_analysis_headerout(&vd,&vc,&h1,&h2,&h3);   /* packet memory stays owned by vd (freed by vorbis_dsp_clear or the next analysis_buffer) */
-  if(rc_ho)goto clear;
+  /* header packets: the memory stays owned by vd (freed by vorbis_dsp_clear, the next vorbis_analysis_headerout or the next analysis_buffer).
+   * pattern: h = headerout with the same comment struct, H = after adding a tag to it, N = with a second, fresh comment struct,
+   *          a = one block of audio encoded in between (block_init happens here if it has not yet) */
+  {
+    const char *pc; int ntag=0;
+    for(pc=hopat;*pc;pc++){
+      if(*pc=='h'||*pc=='H'){
+        if(*pc=='H'){ char v[32]; snprintf(v,sizeof(v),"value %d of a changed comment list",ntag++); vorbis_comment_add_tag(&vc,"EXTRA",v); }
+        rc_ho=vorbis_analysis_headerout(&vd,&vc,&h1,&h2,&h3);
+      }else if(*pc=='N'){
+        if(!have_vc2){ vorbis_comment_init(&vc2); have_vc2=1; }
+        vorbis_comment_add_tag(&vc2,"ALBUM","second comment struct");
+        rc_ho=vorbis_analysis_headerout(&vd,&vc2,&h1,&h2,&h3);
+      }else if(*pc=='a'){
+        int got=0,guard=0;
+        STAGE("headerout:audio");
+        if(!have_vb){ have_vb=1; rc_bi=vorbis_block_init(&vd,&vb); if(rc_bi)goto clear; }
+        while(!got&&guard++<64){
+          float **b=vorbis_analysis_buffer(&vd,1024); int k,j;
+          for(j=0;j<1024;j++){ long tt=t0+j; for(k=0;k<ch;k++) b[k][j]=0.3f*sinf(2*M_PI*(300.0+17.0*(k%16))*tt/(double)rate)+0.15f*noise(); }
+          vorbis_analysis_wrote(&vd,1024); t0+=1024;
+          while(!got&&vorbis_analysis_blockout(&vd,&vb)==1){ vorbis_analysis(&vb,NULL); vorbis_bitrate_addblock(&vb); while(vorbis_bitrate_flushpacket(&vd,&op))packets++; got=1; }
+        }
+        STAGE("headerout");
+        continue;
+      }else continue;
+      if(rc_ho)goto clear;
+      nho++;
+    }
+  }
   reached=4;
   if(stage<5)goto clear;
   STAGE("block_init");
-  have_vb=1;
-  rc_bi=vorbis_block_init(&vd,&vb);
-  if(rc_bi)goto clear;
+  if(!have_vb){
+    have_vb=1;
+    rc_bi=vorbis_block_init(&vd,&vb);
+    if(rc_bi)goto clear;
+  }
   reached=5;
   if(stage<6)goto clear;
   STAGE("blocks");
@@ -159,6 +190,7 @@ static int run_enc(char *sv,char *res,size_t cap){
       if(have_vb)vorbis_block_clear(&vb);
       if(have_vd)vorbis_dsp_clear(&vd);
       vorbis_comment_clear(&vc);
+      if(have_vc2)vorbis_comment_clear(&vc2);
       vorbis_info_clear(&vi);
       if(k==0)mid=wa_live_bytes;
     }
@@ -166,12 +198,13 @@ static int run_enc(char *sv,char *res,size_t cap){
     if(have_vb){ vorbis_block_clear(&vb); vorbis_block_clear(&vb); }
     if(have_vd){ vorbis_dsp_clear(&vd); vorbis_dsp_clear(&vd); }
     vorbis_comment_clear(&vc); vorbis_comment_clear(&vc);
+    if(have_vc2){ vorbis_comment_clear(&vc2); vorbis_comment_clear(&vc2); }
     vorbis_info_clear(&vi); mid=wa_live_bytes; vorbis_info_clear(&vi);
   }
   wa_on=0;
   live_sizes(ls,sizeof(ls));
-  snprintf(res,cap,"ok rc=%d,%d,%d,%d,%d,%d reached=%d blocks=%ld packets=%ld peak=%ld calls=%ld mid=%ld leakB=%ld leakN=%ld live=%s ovf=%d rsz=%zu",
-           rc_setup,rc_ctl,rc_init,rc_ai,rc_ho,rc_bi,reached,blocks,packets,wa_peak_bytes,wa_calls,mid,wa_live_bytes,wa_live_blocks,ls,wa_overflow,sizeof(vorbis_info_residue0));
+  snprintf(res,cap,"ok nho=%d rc=%d,%d,%d,%d,%d,%d reached=%d blocks=%ld packets=%ld peak=%ld calls=%ld mid=%ld leakB=%ld leakN=%ld live=%s ovf=%d rsz=%zu",
+           nho,rc_setup,rc_ctl,rc_init,rc_ai,rc_ho,rc_bi,reached,blocks,packets,wa_peak_bytes,wa_calls,mid,wa_live_bytes,wa_live_blocks,ls,wa_overflow,sizeof(vorbis_info_residue0));
   return 0;
 }
 
